@@ -63,18 +63,26 @@ wstran_pipe_send_cb(void *arg)
 	ws_pipe *p    = arg;
 	nni_aio *taio = &p->txaio;
 	nni_aio *uaio;
+	int      rv;
 
 	nni_mtx_lock(&p->mtx);
 	uaio          = p->user_txaio;
 	p->user_txaio = NULL;
 
-	if (uaio != NULL) {
-		int rv;
-		if ((rv = nni_aio_result(taio)) != 0) {
+	if ((rv = nni_aio_result(taio)) != 0) {
+		// The message was not sent and is still attached to txaio:
+		// it goes back to the caller (who frees it), or is freed
+		// here if the caller's operation was cancelled meanwhile.
+		nni_msg *msg = nni_aio_get_msg(taio);
+		nni_aio_set_msg(taio, NULL);
+		if (uaio != NULL) {
+			nni_aio_set_msg(uaio, msg);
 			nni_aio_finish_error(uaio, rv);
 		} else {
-			nni_aio_finish(uaio, 0, 0);
+			nni_msg_free(msg);
 		}
+	} else if (uaio != NULL) {
+		nni_aio_finish(uaio, 0, 0);
 	}
 	nni_mtx_unlock(&p->mtx);
 }
